@@ -585,6 +585,30 @@ func checkVoidDropKeepsMixedElement(p *Program, r *Report, rule string) {
 		r.Undec(rule, cn, "", "anchor not found")
 		return
 	}
+	// the forgetting of a void element may live in a helper of the tag scanner
+	cands := []*ssa.Function{T}
+	for _, b := range T.Blocks {
+		for _, in := range b.Instrs {
+			if c, ok := in.(*ssa.Call); ok {
+				if g := staticCallee(c.Common()); g != nil && g.Pkg == T.Pkg && g.Blocks != nil {
+					cands = append(cands, g)
+				}
+			}
+		}
+	}
+	for _, f := range cands {
+		for _, b := range f.Blocks {
+			for _, in := range b.Instrs {
+				if s, ok := in.(*ssa.Store); ok {
+					if _, path := pathAddrRoot(s.Addr); path == "element" {
+						if k, ok := s.Val.(*ssa.Const); ok && k.Value == nil {
+							T = f
+						}
+					}
+				}
+			}
+		}
+	}
 	isNamesElem := func(v ssa.Value) bool {
 		u, ok := v.(*ssa.UnOp)
 		if !ok || u.Op != token.MUL {
@@ -726,4 +750,295 @@ func checkVoidDropKeepsMixedElement(p *Program, r *Report, rule string) {
 		return
 	}
 	r.Check(bad == "", rule, cn, p.Pos(start.Instrs[0].Pos()), "where one of the names a conditional left for the element is not a void element, the element is kept at the end of the tag", "the element is forgotten at the end of the tag ("+bad+") although one of the names a conditional left for it is not a void element: what follows is the content of that element, and actions in it are checked against no element at all — `{{if .C}}<img{{else}}<script{{end}}>{{.X}}`")
+}
+
+// checkTextValidatorIgnoresValueWhenAmbiguous (C02, repair F39): after a conditional, attr.value is the text one of
+// the branches wrote; another branch may have written nothing. Under attr.ambiguousValue no decision of the
+// validator of text after a start action may depend on attr.value: followed as a taint along every path (phis by
+// the edge taken), from the loads of attr.value to the branch conditions.
+func checkTextValidatorIgnoresValueWhenAmbiguous(p *Program, r *Report, rule string) {
+	V := textAfterStartValidator(p)
+	if V == nil || V.Blocks == nil {
+		r.Undec(rule, "template#text-after-start-validator", "", "anchor not found")
+		return
+	}
+	short := strings.TrimPrefix(fnName(V), pkgTemplate+".")
+	cn := "template." + short + "#ambiguous-value-not-trusted"
+	key := func(v ssa.Value) string { return fmt.Sprintf("t%p", v) }
+	bad := ""
+	n := 0
+	w := &tvWalk{Visits: 2, Limit: 100000}
+	w.Leaf = func(v ssa.Value) tv {
+		if _, path, ok := loadPath(v); ok && (path == "attr.ambiguousValue" || strings.HasSuffix(path, ".ambiguousValue")) {
+			return tvTrue
+		}
+		return tvUnknown
+	}
+	w.Step = func(in ssa.Instruction, st map[string]bool, val func(ssa.Value) tv) {
+		v, isVal := in.(ssa.Value)
+		if isVal {
+			t := false
+			if _, path, ok := loadPath(v); ok && (path == "attr.value" || strings.HasSuffix(path, ".attr.value")) && isStringish(v.Type()) {
+				t = true
+			}
+			if ph, ok := in.(*ssa.Phi); ok {
+				for i, pr := range ph.Block().Preds {
+					if pr == w.From && st[key(ph.Edges[i])] {
+						t = true
+					}
+				}
+			} else {
+				for _, op := range in.Operands(nil) {
+					if *op != nil && st[key(*op)] {
+						t = true
+					}
+				}
+			}
+			st[key(v)] = t
+		}
+		if iff, ok := in.(*ssa.If); ok {
+			n++
+			if st[key(iff.Cond)] && val(iff.Cond) == tvUnknown && bad == "" {
+				bad = p.Pos(iff.Cond.Pos())
+				if bad == "" || bad == "-" {
+					bad = p.Pos(V.Pos())
+				}
+			}
+		}
+	}
+	w.run(V.Blocks[0], map[string]bool{})
+	if w.Over {
+		r.Undec(rule, cn, p.Pos(V.Pos()), "too many paths")
+		return
+	}
+	r.Check(bad == "" && n > 0, rule, cn, p.Pos(V.Pos()), "with an ambiguous recorded value no decision of the validator depends on attr.value", "the validator decides ("+bad+") from attr.value although attr.ambiguousValue says that it is the text of one branch only: `<a href=\"{{.X}}{{if .N}}/{{end}}script:alert(1)\">` with X=\"java\", N=false emits href=\"javascript:alert(1)\" — the '/' of the other branch made the text look harmless")
+}
+
+// checkLtRewriteGate (C01): the rewrite of a stray '<' to "&lt;" applies in ordinary text and inside RCDATA elements
+// (textarea, title), and it must apply from the first piece of a text node on — a text node can start inside such
+// an element (after an action, at the start of a branch or of a called template). Under each of the two situations
+// the write of "&lt;" must be reachable in the first turn of the scanning loop by branches the situation does not
+// decide the other way.
+func checkLtRewriteGate(p *Program, r *Report, rule string) {
+	fn := p.Func("template", "(*escaper).escapeText")
+	cn := "template.(*escaper).escapeText#lt-rewrite-from-the-first-piece"
+	if fn == nil || fn.Blocks == nil {
+		r.Undec(rule, cn, "", "anchor not found")
+		return
+	}
+	var writes []*ssa.BasicBlock
+	for _, b := range fn.Blocks {
+		for _, in := range b.Instrs {
+			if c, ok := in.(*ssa.Call); ok && len(c.Common().Args) == 2 {
+				if k, ok := constString(c.Common().Args[1]); ok && k == "&lt;" {
+					writes = append(writes, b)
+				}
+			}
+		}
+	}
+	if len(writes) == 0 {
+		r.OK(rule, cn, p.Pos(fn.Pos()), "the rewrite is not written in the text-node rewriter itself (decided by C01.R8 where it is)")
+		return
+	}
+	stText := stateConst(p, "stateText")
+	var rcdata int64 = -1
+	tpk := p.Pkg("template")
+	if o := tpk.Types.Scope().Lookup("sanitizationContext"); o != nil {
+		for v, nm := range ConstNames(tpk, o.Type()) {
+			if nm == "sanitizationContextRCDATA" {
+				rcdata = v
+			}
+		}
+	}
+	for _, sit := range []struct {
+		name string
+		text bool
+	}{{"text", true}, {"rcdata", false}} {
+		leaf := func(v ssa.Value) tv {
+			bo, ok := v.(*ssa.BinOp)
+			if !ok || (bo.Op != token.EQL && bo.Op != token.NEQ) {
+				return tvUnknown
+			}
+			pol := func(eq bool) tv { return tvOf(eq == (bo.Op == token.EQL)) }
+			x, y := bo.X, bo.Y
+			if _, isK := x.(*ssa.Const); isK {
+				x, y = y, x
+			}
+			if _, path, ok := loadPath(x); ok && path == "state" && isNamed(x.Type(), pkgTemplate, "state") {
+				if k, ok := constInt(y); ok {
+					if k == stText {
+						return pol(sit.text)
+					}
+					return tvUnknown
+				}
+			}
+			if isNamed(x.Type(), pkgTemplate, "sanitizationContext") {
+				if k, ok := constInt(y); ok && k == rcdata {
+					return pol(!sit.text)
+				}
+			}
+			if isErrorType(x.Type()) {
+				if k, ok := y.(*ssa.Const); ok && k.Value == nil {
+					if _, isEx := x.(*ssa.Extract); isEx {
+						return pol(!sit.text) // the content-kind lookup succeeds for textarea / title
+					}
+				}
+			}
+			return tvUnknown
+		}
+		reached := false
+		w := &tvWalk{Leaf: leaf, Limit: 300000}
+		w.Step = func(in ssa.Instruction, st map[string]bool, val func(ssa.Value) tv) {
+			for _, b := range writes {
+				if in.Block() == b {
+					reached = true
+				}
+			}
+		}
+		w.run(fn.Blocks[0], map[string]bool{})
+		if w.Over && !reached {
+			r.Undec(rule, cn+":"+sit.name, p.Pos(fn.Pos()), "too many paths")
+			continue
+		}
+		what := "in ordinary text"
+		if !sit.text {
+			what = "inside an RCDATA element (textarea, title)"
+		}
+		r.Check(reached, rule, cn+":"+sit.name, p.Pos(fn.Pos()), "a text node that starts "+what+" has its stray '<' rewritten from the first piece on", "a text node that starts "+what+" does not reach the rewrite of '<' in the first turn of the scanning loop: the decision is taken from a value computed for another situation — `<textarea>{{.A}}<{{.X}} <b>x</b></textarea>` with X=\"/textarea\" closes the element with data")
+	}
+}
+
+// checkMemoHitNamesTheCopy (C02, C03): escapeTree answers with the output context and the name of the template that
+// was analysed for the incoming context — the context-specific copy. Where it answers from the memo, the name it
+// hands back must be the key it looked up: with the plain name the caller rewrites no call, and every call site
+// after the first keeps calling the original template, whose actions carry the sanitizers of another context (or
+// none).
+func checkMemoHitNamesTheCopy(p *Program, r *Report, rules ...string) {
+	fn := p.Func("template", "(*escaper).escapeTree")
+	cn := "template.(*escaper).escapeTree#memo-hit-names-the-copy"
+	if fn == nil || fn.Blocks == nil {
+		for _, x := range rules {
+			r.Undec(x, cn, "", "anchor not found")
+		}
+		return
+	}
+	n, bad := 0, ""
+	for _, ret := range Returns(fn) {
+		if len(ret.Results) != 2 {
+			continue
+		}
+		v := ret.Results[0]
+		if ex, ok := v.(*ssa.Extract); ok {
+			v = ex.Tuple
+		}
+		lk, ok := v.(*ssa.Lookup)
+		if !ok {
+			continue
+		}
+		ld, ok := lk.X.(*ssa.UnOp)
+		if !ok {
+			continue
+		}
+		fa, ok := ld.X.(*ssa.FieldAddr)
+		if !ok || fieldName(fa.X.Type(), fa.Field) != "output" {
+			continue
+		}
+		n++
+		if ret.Results[1] != lk.Index && bad == "" {
+			bad = p.Pos(ret.Pos())
+		}
+	}
+	for _, x := range rules {
+		if n == 0 {
+			r.OK(x, cn, p.Pos(fn.Pos()), "no return hands back a value looked up in the output memo directly")
+			continue
+		}
+		r.Check(bad == "", x, cn, p.Pos(fn.Pos()), "where the answer comes from the memo, the name handed back is the key that was looked up", "escapeTree answers from the memo ("+bad+") with another name than the key it looked up: the caller does not redirect the call to the context-specific copy, so later call sites run the original template — `{{define \"t\"}}{{.}}{{end}}<span title=\"{{template \"t\" .}}{{template \"t\" .}}\">` emits the second value with the sanitizers of element content, or none")
+	}
+}
+
+// checkActionMarksRelUnknown (C02.R9): an action inside the rel attribute of a link makes the rel values unknown:
+// on every path of escapeAction that hands the context back under "in an attribute value, the element is link, the
+// attribute is rel", attr.ambiguousValue has been set.
+func checkActionMarksRelUnknown(p *Program, r *Report, rule string) {
+	A := p.Func("template", "(*escaper).escapeAction")
+	cn := "template.(*escaper).escapeAction#marks-rel-unknown"
+	if A == nil || A.Blocks == nil {
+		r.Undec(rule, cn, "", "anchor not found")
+		return
+	}
+	edit := p.Func("template", "(*escaper).editActionNode")
+	var call *ssa.Call
+	for _, b := range A.Blocks {
+		for _, in := range b.Instrs {
+			if c, ok := in.(*ssa.Call); ok && edit != nil && staticCallee(c.Common()) == edit {
+				call = c
+			}
+		}
+	}
+	if call == nil {
+		r.Undec(rule, cn, p.Pos(A.Pos()), "the place where the action's sanitizers are recorded was not found")
+		return
+	}
+	errState := stateConst(p, "stateError")
+	stAttr := stateConst(p, "stateAttr")
+	leaf := func(v ssa.Value) tv {
+		bo, ok := v.(*ssa.BinOp)
+		if !ok || (bo.Op != token.EQL && bo.Op != token.NEQ) {
+			return tvUnknown
+		}
+		pol := func(eq bool) tv { return tvOf(eq == (bo.Op == token.EQL)) }
+		x, y := bo.X, bo.Y
+		if _, isK := x.(*ssa.Const); isK {
+			x, y = y, x
+		}
+		_, path, ok := loadPath(x)
+		if !ok {
+			return tvUnknown
+		}
+		switch {
+		case path == "state" && isNamed(x.Type(), pkgTemplate, "state"):
+			if k, ok := constInt(y); ok {
+				return pol(k == stAttr)
+			}
+		case path == "element.name":
+			if k, ok := constString(y); ok {
+				return pol(k == "link")
+			}
+		case path == "attr.name":
+			if k, ok := constString(y); ok {
+				return pol(k == "rel")
+			}
+		}
+		return tvUnknown
+	}
+	bad, n := "", 0
+	w := &tvWalk{Leaf: leaf}
+	w.Step = func(in ssa.Instruction, st map[string]bool, val func(ssa.Value) tv) {
+		switch x := in.(type) {
+		case *ssa.Store:
+			if _, path := pathAddrRoot(x.Addr); path == "attr.ambiguousValue" || strings.HasSuffix(path, ".ambiguousValue") {
+				st["set"] = val(x.Val) == tvTrue
+			}
+		case *ssa.Call:
+			if g := staticCallee(x.Common()); g != nil && g != edit && g.Pkg == A.Pkg && setsFieldOnAllPaths(g, "ambiguousValue", leaf, 0) {
+				st["set"] = true
+			}
+		}
+	}
+	w.Ret = func(ret *ssa.Return, st map[string]bool, val func(ssa.Value) tv) {
+		if isErrorContextReturn(ret, errState) {
+			return
+		}
+		n++
+		if !st["set"] && bad == "" {
+			bad = p.Pos(ret.Pos())
+		}
+	}
+	w.run(call.Block(), map[string]bool{})
+	if w.Over {
+		r.Undec(rule, cn, p.Pos(A.Pos()), "too many paths")
+		return
+	}
+	r.Check(bad == "" && n > 0, rule, cn, p.Pos(call.Pos()), "an action inside the rel attribute of a link marks the rel values as unknown on every path that hands the context back", "after an action inside the rel attribute of a link the context can be handed back ("+bad+") with the static rel values still in force: `<link rel=\"icon {{.X}}\" href=\"{{.U}}\">` with X=\"stylesheet\" takes a plain URL for a stylesheet")
 }
